@@ -44,6 +44,12 @@ def run(ctx, whats, nbeh, depth, judge="C07"):
     # filtered inputs (configuration 17 of 19, transform.WithInputListOptions): the same for an input that stops matching the filter
     if len(behs) > 17:
         behs[17] = [c("create", 1, 1), c("create", 2, 2), c("wait"), c("update", 1, 3), c("wait"), c("td", 1), c("wait")]
+    # inputs and outputs in one namespace (configurations 14 and 15 of 19): a foreign finalizer on the output, the input torn down /
+    # destroyed, the controller idle, then the foreign finalizer goes: the controller has to be woken by its output becoming
+    # destroy-ready (seed C06-6)
+    if len(behs) > 15:
+        behs[14] = [c("create", 1, 1), c("wait"), c("addF", 1), c("td", 1), c("wait"), c("remF", 1), c("wait")]
+        behs[15] = [c("create", 1, 1), c("wait"), c("addF", 1), c("destroy", 1), c("wait"), c("remF", 1), c("wait")]
     ctx.cov["directed_known_finding_scenarios"] = 1
     ctx.cov["behaviours_replayed"] = len(behs)
     ctx.sample({"external_ops_head": behs[0][:10]})
